@@ -33,9 +33,9 @@ PROBES = list(PROBES) + ["integer-arguments-as-numpy-scalars"]
 
 # dimensions added in seeded round 9
 PROBES = list(PROBES) + ["long-fold(>=10^7-samples)", "period-a-few-float32-ulps-from-a-whole-number-of-samples"]
-RULE = RULE + (" Round 9: 0.3% of runs (1% thorough) fold 1.2-1.7e7 samples with TimeSeries.fold at a period 0..3 float32 ulps from k*tsamp; the data are 0/1 (cell sums exact in "
+RULE = RULE + (" Round 9: 0.2% of runs (1% thorough) fold 1.2-1.7e7 samples with TimeSeries.fold at a period 0..3 float32 ulps from k*tsamp; the data are 0/1 (cell sums exact in "
                "float32); samples within 1e-4 bin of an edge carry no power and only widen the admissible interval [S/(n+a), S/n] of the two cells they may fall in.")
 
 # dimensions added in seeded round 10
 PROBES = list(PROBES) + ["long-fold(>2^24-values-per-cell)"]
-RULE = RULE + " Round 10: 0.15% of runs fold a 32-64-channel 8-bit file holding more than 2^24 (sample, channel) values per cell; sparse 0/1 data keep the cell sums below 2^24 (exact in float32) while the hit counts exceed it."
+RULE = RULE + " Round 10: 0.1% of runs fold a 32-64-channel 8-bit file holding more than 2^24 (sample, channel) values per cell; sparse 0/1 data keep the cell sums below 2^24 (exact in float32) while the hit counts exceed it."
